@@ -17,7 +17,8 @@ CLAIMED = {
  'C02': ('exploration',
          'Closed-loop exploration of multi-step handling cycles (all lifecycles, sub-handlers, storages) with foreign events, '
          'kills/stops/lost responses/echo delays; view-based clauses under every fault, strict exactly-once and retry '
-         'numbering in the fault-free tier, close-not-early and parent-after-children clauses against the server state.',
+         'numbering in the fault-free tier, close-not-early, finished-record-not-dropped-before-the-close and parent-after-children '
+         'clauses against the server state; async and synchronous (threaded) handlers.',
          'DESIGN.md section 5 / C02',
          'handler ids unique per cause; no retries=/timeout= limits (C11); reference decoding of progress records for short ids'),
  'C03': ('exploration',
@@ -41,9 +42,9 @@ CLAIMED = {
  'C09': ('exploration',
          'Daemons of every reaction type and timers of every configuration under label toggles, graceful/early/forced '
          'deletions, peering pauses and operator exits; one-instance, staged-stop, stop-requested, no-restart-after-own-exit, '
-         'running-at-quiescence, no-stall (CPU watchdog) and exit-completes oracles.',
+         'running-at-quiescence, no-stall (CPU watchdog) and exit-completes oracles; async and synchronous (threaded) daemons and timers.',
          'DESIGN.md section 5 / C09',
-         'cancel-only daemons always have a cancellation_timeout; async daemons only (no threads)'),
+         'cancel-only daemons always have a cancellation_timeout; synchronous daemons/timers run in simulated threads (baton-passed real threads behind settings.execution.executor)'),
  'C10': ('exploration',
          'Timer-only workloads over all interval/sharp/idle/initial_delay combinations, durations around the interval, error '
          'scripts and object edits; strict lower bounds and slack-carrying upper bounds on the start/end stamps.',
@@ -60,7 +61,7 @@ CLAIMED = {
          'Deletion histories with mandatory/optional delete handlers, daemons and timers of every reaction type, foreign finalizer '
          'edits, label flips, 422 conflicts on the finalizer patch and restarts; server-side invariants: the finalizer is not removed '
          'while something of ours is unfinished or running within its grace, it is removed once all is done, foreign finalizers are '
-         'never added, dropped or reordered.',
+         'never added, dropped or reordered; async and synchronous (threaded) daemons.',
          'DESIGN.md section 5 / C06',
          'reference decoding of progress records; cancel-only daemons have a cancellation_timeout'),
  'C08': ('fault_enumeration',
@@ -72,19 +73,20 @@ CLAIMED = {
  'C11': ('exploration',
          'Change handlers and sub-handlers (also across stops/kills/restarts), timers and daemons with drawn errors mode, retries, '
          'timeout, backoff and exception scripts; per attempt sequence: spacing, permanence, ignored => done (also the recorded '
-         'verdict, and timers going on), attempts <= retries, nothing after the timeout, recorded failed afterwards.',
+         'verdict, and timers going on), attempts <= retries, nothing after the timeout, recorded failed afterwards; API errors on the '
+         'patches of timer attempts; a timer that failed for good is never started anew in the process.',
          'DESIGN.md section 5 / C11',
          'activities (startup/cleanup/login) are exercised in C20\'s workload'),
  'C12': ('exploration',
          'Harness A drives api.request directly through finite per-attempt fault sequences x back-off configurations (empty, '
          'scalar incl. 0, list, re-iterable) x enforce_retry_after; harness B runs the closed loop with per-object error storms, '
-         '401 re-authentication with concurrent requests and a login handler that re-issues revoked credentials.',
+         '401 re-authentication with concurrent requests and login handlers that re-issue revoked credentials (the latest, or an earlier set: two identities in turn).',
          'DESIGN.md section 5 / C12',
          'attempt times are taken at the fake server; one retry on a just-closed session is tolerated'),
  'C13': ('exploration',
          '2-4 operator processes (one virtual-time loop each) sharing a peering object: starts, stops, cancellations, kills, '
          'restarts, delayed peering events, junk records; paused-by-effect (no open stream, daemons flagged), prompt resume, '
-         'settled state (exactly the top running operator active), record renewal/removal/cleaning, no handler repeated in a process.',
+         'settled state (exactly the top running operator active), record renewal/removal/cleaning (nobody removes the valid record of a running peer), no handler repeated in a process.',
          'DESIGN.md section 5 / C13',
          'clock skew 0 (the guarantee presupposes synchronised clocks); lifetimes >= 3 s'),
  'C14': ('exploration',
